@@ -157,6 +157,11 @@ class ExplorerScriptSsbCompiler:
                 # Parse as SsbScript instead
                 subcompiler = SsbScriptSsbCompiler()
                 subcompiler.compile(explorerscript_src)
+                if macros_only and subcompiler.routine_infos:
+                    # An imported file must not contain routines, whatever language it is written in.
+                    # noinspection PyUnusedLocal
+                    fn = os.path.basename(file_name)  # noqa
+                    raise SsbCompilerError(f(_("{fn}: Macro scripts must not contain any routines.")))
                 self.routine_infos = subcompiler.routine_infos
                 self.routine_ops = subcompiler.routine_ops
                 self.named_coroutines = subcompiler.named_coroutines
